@@ -2,3 +2,4 @@ import TexSoupModel.Basic
 import TexSoupModel.Tok
 import TexSoupModel.Tree
 import TexSoupModel.Read
+import TexSoupModel.Nav
